@@ -94,7 +94,44 @@ func TestProxyRoutes(t *testing.T) {
 	wq, werr := core.ABCIQueryWithOptions(bg, "/store/acc/key", []byte("k1"), opts)
 	check("abci_query", "", gq, err, wq, werr)
 
+	gbs, err := cl.BlockSearch(bg, "block.height>0", nil, nil, "asc")
+	wbs, werr := core.BlockSearch(bg, "block.height>0", nil, nil, "asc")
+	check("block_search", idProxyRoutes, gbs, err, wbs, werr)
+	gbs, err = cl.BlockSearch(bg, "block.height>1", ip(1), ip(2), "desc")
+	wbs, werr = core.BlockSearch(bg, "block.height>1", ip(1), ip(2), "desc")
+	check("block_search(paged)", idProxyRoutes, gbs, err, wbs, werr)
+
+	// pass-through routes outside the kinds of data C20 names: measured, not judged
+	for name, call := range map[string]func() error{
+		"net_info":        func() error { _, err := cl.NetInfo(bg); return err },
+		"genesis_chunked": func() error { _, err := cl.GenesisChunked(bg, 0); return err },
+		"health":          func() error { _, err := cl.Health(bg); return err },
+	} {
+		lib.Class("TestProxyRoutes", fmt.Sprintf("unjudged-route:%s:relayed=%v", name, call() == nil))
+	}
+
 	gi, err := cl.BlockchainInfo(bg, 1, 4)
 	wi, werr := core.BlockchainInfo(bg, 1, 4)
 	check("blockchain", idChainInfo, gi, err, wi, werr)
+}
+
+// The proxy's block_search route declares four argument names for a five-argument function: every call fails
+// inside the JSON-RPC server, so blocks found by search can never be obtained through the light proxy.
+func TestRegressProxyBlockSearchRoute(t *testing.T) {
+	w := fixedWorld(t)
+	defer w.close()
+	c, _ := w.newVerifier(t, newLiar(w.core), 1, false)
+	mux := http.NewServeMux()
+	rpcserver.RegisterRPCFuncs(mux, lproxy.RPCRoutes(c), log.NewNopLogger())
+	srv := httptest.NewServer(mux)
+	defer srv.Close()
+	cl, err := rpchttp.New(srv.URL, "/websocket")
+	if err != nil {
+		t.Fatalf("VERIF-INFRA: http client: %v", err)
+	}
+	res, err := cl.BlockSearch(bg, "block.height>0", nil, nil, "asc")
+	if err == nil && len(res.Blocks) != 5 {
+		t.Fatalf("block_search through the proxy returned %d blocks, the chain has 5", len(res.Blocks))
+	}
+	regress(t, "TestRegressProxyBlockSearchRoute", idProxyRoutes, err != nil, "honest block_search through the light proxy fails: %v", err)
 }
